@@ -1,5 +1,6 @@
 ---- MODULE PrintUniverses ----
 EXTENDS Store
 ASSUME \A n \in UniverseNames : PrintT(<<"UNIVERSE", n, UniverseSeq(n)>>)
+ASSUME \A n \in StoreUniverses : PrintT(<<"DATA", n, SetToSeq({<<e, SideDataOf(e)>> : e \in {x \in UniverseTable[n] : SideDataOf(x) # <<>>}})>>)
 ASSUME \A n \in StoreUniverses : \A c \in Cfgs : PrintT(<<"JUNK", n, c, SetToSeq(JunkOf(c, n))>>)
 ====
